@@ -180,7 +180,8 @@ def generate(rng: random.Random, batch: dict) -> dict:
     use = rng.choice([-1, -1, 1, sd])
     gamma = rng.choice([0.1, 0.1, 0.5, 1.0, 0.0])
     return {"sd": sd, "cd": cd, "A": A, "B": B, "K": K, "p": p, "tq": tq,
-            "legs": legs,
+            "legs": legs, "starts_as": rng.choice(
+                ["list", "list", "list", "tuple", "generator_reused_buffer"]),
             "test_steps": tsteps, "train_steps": rsteps,
             "test_time": ttime, "train_time": rtime, "fault": fault,
             "use_state_dims": use, "gamma": gamma}
@@ -215,7 +216,8 @@ def _gen_describe(rng: random.Random, batch: dict) -> dict:
     return {**doc, "legs": legs, "use_state_dims": in_j,
             "test_steps": min(doc["test_steps"], 50),
             "train_steps": min(doc["train_steps"], 30),
-            "describe": {"mod": mod, "in_j": in_j}}
+            "describe": {"mod": mod, "in_j": in_j,
+                         "redescribe": rng.random() < 0.4}}
 
 
 def _gen_bundled(rng: random.Random) -> dict:
@@ -332,8 +334,10 @@ def _execute_threads(doc: dict) -> dict:
 
     import numpy as np
     warnings.simplefilter("ignore")
+    import io
     from moptipyapps.dynamic_control.ode import (diff_from_ode, j_from_ode,
                                                  run_ode, t_from_ode)
+    from moptipyapps.dynamic_control.results_log import ResultsLog
     res = core.new_result()
     sd, cd = int(doc["sd"]), int(doc["cd"])
     Al, Bl, Kl = doc["A"], doc["B"], doc["K"]
@@ -367,8 +371,13 @@ def _execute_threads(doc: dict) -> dict:
             j = j_from_ode(ode, sd, use, gamma)
             t = t_from_ode(ode)
             d = diff_from_ode(ode, sd)
+            sio = io.StringIO()
+            with ResultsLog(sd, sio) as log:   # a table of its own
+                log.collector(0, ode, j, t)
+                log.collector(1, ode, j, t)
+                text = sio.getvalue()
             return (np.array(ode), float(j), float(t),
-                    np.array(d[0]), np.array(d[1]))
+                    np.array(d[0]), np.array(d[1]), text)
         return body
     legs = doc["legs"][:2]
     alone, points = [], []
@@ -385,6 +394,8 @@ def _execute_threads(doc: dict) -> dict:
         core.digest([fhex(v) for v in a[0].ravel()])[:16] for a in alone]])
 
     def same(a, b) -> bool:
+        if isinstance(a, str):
+            return a == b
         if isinstance(a, float):
             return a == b or (a != a and b != b)
         return a.shape == b.shape and bool(np.array_equal(a, b,
@@ -395,7 +406,8 @@ def _execute_threads(doc: dict) -> dict:
                            f"thread {i}: {type(g).__name__}: {g}")
             break
         bad = [nm for nm, u, v in zip(("rows", "J", "T", "state+control",
-                                        "differentials"), a, g)
+                                        "differentials", "results table"),
+                                       a, g)
                if not same(u, v)]
         if bad:
             core.violation(
@@ -520,8 +532,24 @@ def execute(doc: dict) -> dict:
 
     tsteps, rsteps = int(doc["test_steps"]), int(doc["train_steps"])
     ttime, rtime = float(doc["test_time"]), float(doc["train_time"])
+    def hand_over(starts):
+        how = doc.get("starts_as", "list")
+        if how == "generator_reused_buffer" and starts:
+            # an iterable that yields one buffer over and over (the
+            # parameter is documented as an Iterable of arrays)
+            core.bump(res["probes"], "starts_from_reused_buffer")
+
+            def gen():
+                buf = np.empty(len(starts[0]), dtype=float)
+                for st in starts:
+                    buf[:] = st
+                    yield buf
+            return gen()
+        if how == "tuple":
+            return tuple(starts)
+        return starts
     try:
-        multi_run_ode(test_starts, train_starts,
+        multi_run_ode(hand_over(test_starts), hand_over(train_starts),
                       (collector, collector2) if many else collector,
                       equations, controller, params, cd, tsteps, ttime,
                       rsteps, rtime, use, gamma)
@@ -816,6 +844,51 @@ def _describe(doc, res, sd, cd, controller, equations, params, test_starts,
                 f"dimensions in J: {in_j}) T={t!r} rows={len(ode)}")
             return
     res["events"].append(["described", len(lines) - 1])
+    if not d.get("redescribe"):
+        return
+    # the equations of a System are an attribute that is assigned after
+    # construction (the bundled systems do so, the surrogate optimizer
+    # replaces them on copies): a later report must simulate the current ones
+    from moptipyapps.dynamic_control.ode import multi_run_ode
+
+    def eq2(state, t, ctrl, out):
+        equations(state, t, ctrl, out)
+        for i in range(sd):
+            out[i] = 0.5 * out[i] - 0.25 * float(state[i])
+    want: list = []
+    try:
+        multi_run_ode(test_starts, train_starts,
+                      lambda i, o, j, t: want.append((i, np.array(o), j, t)),
+                      eq2, controller, params, cd, int(doc["test_steps"]),
+                      float(doc["test_time"]), int(doc["train_steps"]),
+                      float(doc["train_time"]), in_j, float(doc["gamma"]))
+        system.equations = eq2
+        with redirect_stdout(io.StringIO()):
+            files = system.describe_system(None, controller, params, "r2",
+                                           dest + "b")
+        with open(files[1], encoding="utf-8") as fh:
+            lines2 = [ln for ln in fh.read().splitlines() if ln.strip()]
+    except _TooManyCalls:
+        return      # (the call budget of the scenario is used up: undecided)
+    except Exception as exc:  # noqa: BLE001
+        core.violation(res, "describe_system-raised",
+                       f"second report: {type(exc).__name__}: {exc}")
+        return
+    finally:
+        shutil.rmtree(dest + "b", ignore_errors=True)
+    core.bump(res["probes"], "described_again_after_new_equations")
+    rows2 = [[float(v) for v in ln.split(";")] for ln in lines2[1:]]
+    exp2 = [[float(j), float(t), float(len(o))] + [
+        float(v) for v in o[0][:sd]] + [float(v) for v in o[-1][:sd]]
+        for (_, o, j, t) in want]
+    if len(rows2) != len(exp2) or any(
+            len(a) != len(b) or not all(same(u, v) for u, v in zip(a, b))
+            for a, b in zip(rows2, exp2)):
+        core.violation(
+            res, "results-table-differs-from-simulation",
+            f"describe_system after the system's equations were replaced: "
+            f"the table holds {[r[:3] for r in rows2][:3]}, simulating the "
+            f"current equations gives {[r[:3] for r in exp2][:3]}")
 
 
 # ------------------------------------------------------------------ shrinking
